@@ -139,3 +139,57 @@ theorem hashEnc_of_code (u v : Nat) (e : code u = code v) : hashEnc u = hashEnc 
   rw [b32First6_of_codeOf _ _ (decBytes_range u) (decBytes_range v) (decBytes_ne_nil u) (decBytes_ne_nil v) e]
 
 end Furiko.HashEnc
+
+namespace Furiko.HashEnc
+
+theorem decBytesAux_length_ge4 (f n : Nat) (acc : List Nat) (h : 1000 ≤ n) :
+    acc.length + 4 ≤ (decBytesAux (f + 4) n acc).length := by
+  have h1 : ¬ n < 10 := by omega
+  have h2 : ¬ n / 10 < 10 := by omega
+  have h3 : ¬ n / 10 / 10 < 10 := by omega
+  rw [show f + 4 = (f + 3) + 1 from rfl, decBytesAux, if_neg h1,
+      show f + 3 = (f + 2) + 1 from rfl, decBytesAux, if_neg h2,
+      show f + 2 = (f + 1) + 1 from rfl, decBytesAux, if_neg h3]
+  have := decBytesAux_length_succ f (n / 10 / 10 / 10) ((48 + n / 10 / 10 % 10) :: (48 + n / 10 % 10) :: (48 + n % 10) :: acc)
+  simp only [List.length_cons] at this
+  omega
+
+theorem decBytes_length_ge4 (u : Nat) (h : 1000 ≤ u) : 4 ≤ (decBytes u).length := by
+  unfold decBytes
+  have := decBytesAux_length_ge4 (u - 3) u [] h
+  rw [show u - 3 + 4 = u + 1 by omega] at this
+  simpa using this
+
+theorem b32Char_mem : ∀ v, v < 32 → b32Char v ∈ b32Alphabet := by decide
+
+theorem b32First6_alphabet (bs : List Nat) (h : ∀ b ∈ bs, b < 256) (hl : 4 ≤ bs.length) :
+    ∀ c ∈ b32First6 bs, c ∈ b32Alphabet := by
+  rcases bs with _ | ⟨a, _ | ⟨b, _ | ⟨c, _ | ⟨d, t⟩⟩⟩⟩ <;> simp at hl
+  have ha := h a (by simp); have hb := h b (by simp); have hc := h c (by simp); have hd := h d (by simp)
+  intro x hx
+  simp only [b32First6, List.getD_cons_zero, List.getD_cons_succ, List.mem_cons, List.not_mem_nil, or_false] at hx
+  rcases hx with rfl | rfl | rfl | rfl | rfl | rfl <;> exact b32Char_mem _ (by omega)
+
+end Furiko.HashEnc
+
+namespace Furiko.HashEnc
+
+theorem decBytes_length_le3 (u : Nat) (h : u < 1000) : (decBytes u).length ≤ 3 := by
+  unfold decBytes
+  by_cases h1 : u < 10
+  · rw [decBytesAux, if_pos h1]; simp
+  · obtain ⟨f, hf⟩ : ∃ f, u + 1 = f + 3 := ⟨u - 2, by omega⟩
+    rw [hf, show f + 3 = (f + 2) + 1 from rfl, decBytesAux, if_neg h1]
+    by_cases h2 : u / 10 < 10
+    · rw [show f + 2 = (f + 1) + 1 from rfl, decBytesAux, if_pos h2]; simp
+    · rw [show f + 2 = (f + 1) + 1 from rfl, decBytesAux, if_neg h2, decBytesAux, if_pos (by omega)]; simp
+
+theorem b32First6_padding (bs : List Nat) (h0 : bs ≠ []) (h3 : bs.length ≤ 3) : '=' ∈ b32First6 bs := by
+  rcases bs with _ | ⟨a, _ | ⟨b, _ | ⟨c, _ | ⟨d, t⟩⟩⟩⟩
+  · contradiction
+  · simp [b32First6]
+  · simp [b32First6]
+  · simp [b32First6]
+  · simp at h3
+
+end Furiko.HashEnc
